@@ -1,3 +1,23 @@
 package main
-import ("fmt";"os";"github.com/gogpu/naga";"github.com/gogpu/naga/hlsl")
-func main(){ b,_:=os.ReadFile(os.Args[1]); src:=string(b); ast,err:=naga.Parse(src); if err!=nil{panic(err)}; m,err:=naga.LowerWithSource(ast,src); if err!=nil{panic(err)}; t,_,err:=hlsl.Compile(m,hlsl.DefaultOptions()); fmt.Println(t,err)}
+
+import (
+	"fmt"
+	"github.com/gogpu/naga"
+	"github.com/gogpu/naga/hlsl"
+	"os"
+)
+
+func main() {
+	b, _ := os.ReadFile(os.Args[1])
+	src := string(b)
+	ast, err := naga.Parse(src)
+	if err != nil {
+		panic(err)
+	}
+	m, err := naga.LowerWithSource(ast, src)
+	if err != nil {
+		panic(err)
+	}
+	t, _, err := hlsl.Compile(m, hlsl.DefaultOptions())
+	fmt.Println(t, err)
+}
